@@ -344,6 +344,15 @@ class Canon:
         if d[0] == "param":
             return "$%d%s" % (d[1], d[2])
         stable = not d[3] and n["lid"] not in self.assigned
+        # `let (a, b) = (x, y)` (also through an inlined helper's tail): a is x
+        if d[0] == "let" and d[2].startswith("."):
+            t = peel(d[1])
+            while t is not None and t.get("k") == "Block" and t.get("inl_root") and t.get("expr") is not None:
+                t = peel(t["expr"])
+            idx = d[2].split(".")[1]
+            if t is not None and t.get("k") == "Tup" and idx.isdigit() and int(idx) < len(t["elems"]) and depth < self.max_depth:
+                rest = d[2][len(idx) + 1:]
+                return self.c(t["elems"][int(idx)], depth + 1) + rest
         if self.force and depth < self.max_depth:
             r = self._through_helper(d, depth) if self.helpers else None
             if r is not None:
@@ -422,6 +431,12 @@ class Canon:
             if op in (">", ">="):
                 op = self.FLIP[op]
                 l, r = r, l
+            uns = (n["l"].get("ty", "") or "").lstrip("&") in ("u8", "u16", "u32", "u64", "u128", "usize") or \
+                (n["r"].get("ty", "") or "").lstrip("&") in ("u8", "u16", "u32", "u64", "u128", "usize")
+            if uns and ((op == "<" and l == "0") or (op == "<=" and l == "1")):
+                op, l, r = "!=", "0", r
+            elif uns and ((op == "<" and r == "1") or (op == "<=" and r == "0")):
+                op, l, r = "==", "0", l
             if op in ("==", "!=", "+", "*", "&", "|", "^", "&&", "||") and r < l:
                 l, r = r, l
             return "(%s %s %s)" % (l, op, r)
@@ -440,7 +455,10 @@ class Canon:
         if k == "AddrOf":
             return self.c(n["e"], d)
         if k == "Cast":
-            return "(%s as %s)" % (self.c(n["e"], d), n["ty"])
+            inner = self.c(n["e"], d)
+            if inner.isdigit() and n.get("ty") in ("u8", "u16", "u32", "u64", "u128", "usize"):
+                return inner            # a literal reached through an inlined binding: (2 as usize) is 2
+            return "(%s as %s)" % (inner, n["ty"])
         if k == "Field":
             return self.c(n["e"], d) + "." + n["name"]
         if k == "Index":
@@ -463,6 +481,9 @@ class Canon:
             return "%s(%s)" % (fname, ", ".join(parts))
         if k == "Try":
             return self.c(n["e"], d) + "?"
+        if k == "Block" and n.get("inl_root"):
+            # an inlined helper call: its value is the value of the callee's tail (locals resolve through defs)
+            return self.c(n["expr"], d) if n.get("expr") is not None else "()"
         if k == "Tup":
             return "(" + ", ".join(self.c(a, d) for a in n["elems"]) + ")"
         if k == "Array":
@@ -629,6 +650,11 @@ class Index:
                                 "raw": self.neg(cc), "expr": cc, "pos": True})
         if e0.get("k") == "Match" and e0.get("src", "match") == "match":
             out.extend(self._match_exits(e0, lambda b: self.diverges(b)))
+        if e0.get("k") == "Block" and e0.get("stmts") and not e0.get("label"):
+            # a nested block runs unconditionally: what its statements establish holds afterwards
+            for s_ in e0["stmts"]:
+                out.extend(self.stmt_guards(s_))
+            return out
         # `expr?` statements (and lets initialised by them): the call succeeded
         for x, _ in H.walk(e):
             if x.get("k") == "Closure":
